@@ -198,6 +198,10 @@ func verifOwnership(t *testing.T, prop string) {
 					vt.Fail(t, rec, prop+":ownership:forged-accepted", "step %d: forged message accepted\nhistory: %s", i, hist)
 					return
 				}
+				if !bytes.Equal(dst[:len(prefix)], prefix) {
+					vt.Fail(t, rec, prop+":ownership:forged-clobbers-dst", "step %d: a rejected Open (dst %s) changed the bytes the caller already had in dst\nbefore %x\nafter  %x\nhistory: %s", i, dcls, prefix, dst[:len(prefix)], hist)
+					return
+				}
 				afterReject = true
 			} else if oerr != nil || !bytes.Equal(out, append(append([]byte(nil), prefix...), want...)) {
 				vt.Fail(t, rec, prop+":ownership:append", "step %d: %s with AEAD(nonce %d, tag %d) — %d AEADs alive on one Block — is not dst || reference output (err=%v, len %d, want %d)\nhistory: %s", i, op, ai.nonce, ai.tag, len(aeads), oerr, len(out), len(prefix)+len(want), hist)
